@@ -12,8 +12,6 @@ setup)
   rsync -a --exclude .git --exclude '.cache/run' --exclude '.cache/scratch' --exclude '.cache/replay' --exclude '.cache/sweep*' /verif/ $MV/verif/
   grep -rlI -e '/verif' -e '/repo' $MV/verif --exclude-dir=.lake --exclude-dir=target --exclude-dir=target-cli --exclude-dir=.cache 2>/dev/null | \
      xargs sed -i -e "s#/verif#$MV/verif#g" -e "s#/repo#$MV/repo#g"
-  # generated lean files carry the path in a comment only; cargo config:
-  sed -i -e "s#/verif#$MV/verif#g" $MV/verif/harness/.cargo/config.toml $MV/verif/harness-aig/.cargo/config.toml 2>/dev/null
   echo "setup done: $MV"
   ;;
 run)
